@@ -140,13 +140,13 @@ func c24Exec(op string) string {
 		}
 		return fmt.Sprintf("%d ts=%d", dv, ts)
 	case "ac3": // ac3 <site> <rate> <unit pts> <frames>: 90 kHz PTS of every frame written by the real MPEG-TS egress
-		fn, ok := verifutil.Funcs["protocols_"+f[1]+"_fromStreamAC3"].(func(int, int64, int) ([]int64, error))
+		fn, ok := verifutil.Funcs[f[1]+"_fromStreamAC3"].(func(int, int64, int) ([]int64, error))
 		if !ok {
 			return "unknown-copy"
 		}
 		got, err := fn(verifutil.Atoi(f[2]), verifutil.AtoI64(f[3]), verifutil.Atoi(f[4]))
 		if err != nil {
-			return "err"
+			return "err " + strings.ReplaceAll(err.Error(), " ", "_")
 		}
 		var sb strings.Builder
 		for i, v := range got {
@@ -197,7 +197,8 @@ func c24GenInline(r *verifutil.Rand) []string {
 		case 1:
 			pts = int64(r.Intn(5)) * int64(rate)
 		}
-		return []string{"reset", fmt.Sprintf("ac3 mpegts %d %d %d", rate, pts, 2+r.Intn(5))}
+		site := "protocols_mpegts"
+		return []string{"reset", fmt.Sprintf("ac3 %s %d %d %d", site, rate, pts, 2+r.Intn(5))}
 	case 1: // round 4: segment duration reported by playback for start offsets that are not whole ticks
 		ts := []int64{90000, 90000, 48000, 44100, 1000, 30000, 12800, 1000000, 600}[r.Intn(9)]
 		start := int64(r.U64()%7200000000000) - 3600000000000
